@@ -662,6 +662,29 @@ def p_sort(ex, path, x, **kw):
     return new
 
 
+def name_tensor(ex, path, a, base="named"):
+    """a derived 1-D tensor that enters a quantified fact is first *named*: fresh array symbol + definitional axiom with the
+    symbol as trigger (DESIGN appendix A, lesson 2)"""
+    if getattr(a, "_named", None) is not None:
+        t, fact = a._named
+        path.add(fact)
+        return t
+    N = toI(a.axes[0].size)
+    A = Array(f"{base}!{next(ex.fresh)}", IntSort(), RealSort())
+    i = Int("i!nm")
+    path.add(ForAll([i], Implies(And(0 <= i, i < N), A[i] == toR(a.elem(i))), patterns=[A[i]]))
+    t = T((Axis(base, N),), lambda k, A=A: A[toI(k)], kind=a.kind, prov=a.prov, sym=(A, N))
+    t.facts = dict(a.facts)
+    t.facts.pop("sorted", None)
+    t.named_of = a
+    for attr in ("view_src", "view_kind"):
+        if hasattr(a, attr):
+            setattr(t, attr, getattr(a, attr))
+    t.facts["cnt"] = lambda v, strict_, A=A, N=N: (cnt_lt if strict_ else cnt_le)(A, N, toR(v))
+    a._named = (t, path.entries[-1][0])
+    return t
+
+
 @prim("np.searchsorted")
 def p_searchsorted(ex, path, a, v, side="left"):
     a = as_tensor(ex, path, a)
@@ -676,7 +699,7 @@ def p_searchsorted(ex, path, a, v, side="left"):
             ex.oblige("searchsorted-requires-ascending", path, And(*[toR(x) <= toR(y) for x, y in zip(its, its[1:])]) if len(its) > 1 else True, "precondition")
         return lift(lambda vv: ground_cnt(its, vv, strict), v, kind="int")
     if a.sym is None:
-        raise Unsupported("searchsorted on an unnamed array (needs a cut)")
+        a = name_tensor(ex, path, a)
     A, N = a.sym
     if not a.facts.get("sorted"):
         ex.oblige("searchsorted-requires-ascending", path, sorted_formula(A, N), "precondition")
@@ -686,7 +709,9 @@ def p_searchsorted(ex, path, a, v, side="left"):
         vr = toR(vv)
         if vr.get_id() not in seen:
             seen.add(vr.get_id())
-            path.add(cnt_char(A, N, vr))
+            fact = cnt_char(A, N, vr)
+            path.add(fact)
+            ex.__dict__.setdefault("ss_log", []).append({"A": A, "N": N, "v": vr, "side": side, "fact": fact.get_id(), "array": a})
         return (cnt_lt if strict else cnt_le)(A, N, vr)
     if isinstance(v, T):
         # instantiate the counting lemma at the generic element(s)
@@ -728,7 +753,8 @@ def p_nextafter(ex, path, x, d):
             path.add(isfloat(r))
         return r
     if isinstance(x, T) and x.ndim >= 1:
-        raise Unsupported("nextafter over a symbolic array (needs a handler)")
+        # elementwise over a symbolic array: the adjacency facts are emitted lazily for the elements that are read
+        return lift(f, x)
     return lift(f, x)
 
 
@@ -1032,3 +1058,21 @@ def p_unique(ex, path, x):
 @prim("np.array_equal")
 def p_array_equal(ex, path, a, b, **kw):
     raise Unsupported("np.array_equal")
+
+
+@prim("ndarray.flatten")
+def p_flatten(ex, path, x):
+    if x.ndim == 1:
+        return x.with_(prov="fresh")
+    if x.ndim == 2 and x.axes[0].concrete():
+        r, n = x.axes[0].size, toI(x.axes[1].size)
+        def elem(k):
+            k = toI(k)
+            res = x.elem(r - 1, k - (r - 1) * n)
+            for q in range(r - 2, -1, -1):
+                res = ite(k < (q + 1) * n, x.elem(q, k - q * n), res)
+            return res
+        t = T((Axis("flat", simplify(r * n)),), elem, kind=x.kind)
+        t.flat_of = x
+        return t
+    raise Unsupported("flatten")
